@@ -19,13 +19,14 @@
 (***************************************************************************)
 EXTENDS AioThreads, P_ThreadPool, Json, TLC
 
-CONSTANTS AbSet, Kinds, PreSet, MaxCancel, QEnv
+CONSTANTS AbSet, Kinds, PreSet, MaxCancel, QEnv,
+          ShSet      \* values of cfg[c].osh: the scope O_c the environment cancels is itself shielded
 
 VARIABLES S, E, hist, pst, pbad
 vars == <<S, E, hist, pst, pbad>>
 View == <<S, E, pst, pbad>>
 
-Cfgs == [Calls -> [ab : AbSet, kind : Kinds, pre : PreSet]]
+Cfgs == [Calls -> [ab : AbSet, kind : Kinds, pre : PreSet, osh : ShSet]]
 
 Init ==
   /\ \E cfg \in Cfgs :
